@@ -39,6 +39,11 @@ def oracle(line: str, obs: Obs):
             if force:
                 if dprs:
                     fails.append({"what": "forced stop sent a DPR", "event": ev[:200], "real": str(dprs)})
+            elif t[2] == "0":
+                # wait timeout 0: the DPRs are queued and the connections are closed in the same breath -- whether a DPR still
+                # reaches the wire is not judged (only that nothing goes to a connection that was not ready)
+                if [c for c in dprs if c not in ready_before]:
+                    fails.append({"what": "stop sent a DPR to a connection that was not ready", "event": ev[:200], "real": str(dprs)})
             else:
                 if sorted(dprs) != sorted(ready_before):
                     fails.append({"what": "stop did not send exactly one DPR to every ready connection (and to no other)",
@@ -122,6 +127,10 @@ def oracle(line: str, obs: Obs):
                 fails.append({"what": "stop() did not return normally", "event": ev[:200],
                               "real": str([l for l in lines if l.startswith(("RAISE", "CRASH"))])})
             sw = next((kv(l) for l in lines if l.startswith("STOPWAIT ")), None)
+            advs = sum(int(w.split("_")[1]) for w in t[3:] if w.startswith("adv_"))
+            if sw is not None and int(sw["dt"]) > int(t[2]) + advs + 1:
+                fails.append({"what": "stop() kept waiting after the wait timeout had expired (the connections are closed then)",
+                              "event": ev[:200], "real": str(sw), "timeout": t[2]})
             if sw is not None and not force and int(sw["registered"]) > 0 and int(sw["dt"]) < int(t[2]):
                 fails.append({"what": "stop() stopped waiting before the wait timeout had expired although connections were still "
                                       "registered (they are closed when their DPA has arrived and their output is flushed, or at the "
@@ -189,14 +198,16 @@ def scenarios(rng: random.Random, tier: str):
         if any(True for _ in conn_ready) and rng.random() < 0.3:
             evs.append("adv 6")           # idle -> DWR sent -> WAITDWA
         force = rng.choice([0, 0, 0, 1])
-        tmo = rng.choice([1, 2, 3])
+        tmo = rng.choice([0, 1, 2, 3])
         nested = []
         for c, nm in conn_ready:
-            beh = rng.choice(["dpa", "dpa", "never", "eof", "dpa_then_more", "dwa_then_dpa"])
+            beh = rng.choice(["dpa", "dpa", "never", "eof", "dpa_then_more", "dwa_then_dpa", "dpa_err"])
             if beh == "dpa":
                 nested.append(f"rx_{c}_" + nodegen.dpa(n(), n(), nm))
             elif beh == "eof":
                 nested.append(f"eof_{c}")
+            elif beh == "dpa_err":           # (a DPA is a DPA whatever its Result-Code, also without one)
+                nested.append(f"rx_{c}_" + nodegen.dpa(n(), n(), nm).replace("rc=2001", rng.choice(["rc=5012", "rc=3004", "rc=3002"])))
             elif beh == "dwa_then_dpa":      # (the answer to a watchdog request sent before the stop arrives first)
                 nested.append(f"rx_{c}_" + nodegen.dwa(n(), n(), nm))
                 nested.append(f"rx_{c}_" + nodegen.dpa(n(), n(), nm))
@@ -219,6 +230,14 @@ def scenarios(rng: random.Random, tier: str):
             nested.append("adv_3")
         evs.append(f"stop {force} {tmo} " + " ".join(nested))
         out.append(CFG.replace("NODE ", f"NODE addrs={rng.choice([1, 1, 2, 3])};") + " | " + " | ".join(evs))
+    # wait timeout 0, peers that never answer / half-open connections: closed at once
+    pre0 = CFG + " | start fail | acc | rx 1 " + nodegen.cer("peer1.x", "4", n(), n()) + " | acc"
+    out.append(pre0 + " | stop 0 0")
+    out.append(pre0 + " | stop 0 0 adv_1 adv_1")
+    # the DPA carries an error result / no result code
+    for rc in ("rc=5012", "rc=3004"):
+        out.append(CFG + " | start fail | acc | rx 1 " + nodegen.cer("peer1.x", "4", n(), n()) +
+                   " | stop 0 3 rx_1_" + nodegen.dpa(n(), n(), "peer1.x").replace("rc=2001", rc))
     # a connection awaiting its DWA when stop() is called; the peer answers in order: DWA, then DPA (also in one read)
     for tmo in (2, 3):
         pre = CFG + " | start fail | acc | rx 1 " + nodegen.cer("peer1.x", "4", n(), n()) + " | adv 6"
